@@ -73,7 +73,9 @@ NameClasses == {[typed |-> "alice", norm |-> "alice"], [typed |-> "ALICE", norm 
                 [typed |-> "x+y", norm |-> "x+y"], [typed |-> "bob", norm |-> "bob"],
                 [typed |-> "averyveryveryveryveryveryveryveryveryveryveryveryverylongusername64",
                  norm  |-> "averyveryveryveryveryveryveryveryveryveryveryveryverylongusername64"],
-                [typed |-> "MiXeD.Case-9", norm |-> "mixed.case-9"]}
+                [typed |-> "MiXeD.Case-9", norm |-> "mixed.case-9"],
+                \* an e-mail style login name (no name filter configured): it is one name, not a name plus a domain
+                [typed |-> "alice@partner.example", norm |-> "alice@partner.example"]}
 
 Key(id, alg, bits, e, wf) == [id |-> id, alg |-> alg, bits |-> bits, e |-> e, wf |-> wf, fp |-> "tbd"]
 GoodKeys == {Key("rsa2048", "rsa", 2048, 65537, TRUE), Key("rsa3072", "rsa", 3072, 65537, TRUE),
